@@ -378,6 +378,9 @@ bool Directory::copy(const String& from, const String& to)
 		if( m != n)
 			return false;
 	}while (n == sizeof(buffer));
+	dst.flush(); // what is still buffered must reach the file before the copy can be called complete
+	if(dst.error())
+		return false;
 	return true;
 }
 
